@@ -11,11 +11,23 @@ pub struct Artefacts {
     /// (name, hash, length) per artefact; the raw text of small ones is kept for reporting
     pub parts: Vec<(String, u64, usize)>,
     pub texts: Vec<(String, String)>,
+    /// messages of the diagnostics a refused program got (not part of `digest`: C15 does not
+    /// name diagnostics among the deterministic artefacts, C19 does)
+    pub diagnostics: Vec<String>,
 }
 
 impl Artefacts {
     pub fn digest(&self) -> String {
         self.parts.iter().map(|(n, h, l)| format!("{n}:{h:016x}:{l}")).collect::<Vec<_>>().join(";")
+    }
+    /// digest plus the diagnostic messages (C19: "exactly the diagnostics it would obtain alone")
+    pub fn digest_with_diagnostics(&self) -> String {
+        // the ORDER in which several diagnostics are listed depends on the process's hash seeds
+        // (e.g. the two halves of a type-alias cycle); that is no effect of concurrency, so the
+        // messages are compared as a sorted list — the wording of each message stays exact
+        let mut d = self.diagnostics.clone();
+        d.sort();
+        format!("{};diag:{:016x}:{}", self.digest(), hash64(d.join("\u{1}").as_bytes()), d.len())
     }
     pub fn first_difference(&self, other: &Artefacts) -> Option<String> {
         for (a, b) in self.parts.iter().zip(other.parts.iter()) {
@@ -40,6 +52,7 @@ pub fn diff_line(a: &str, b: &str) -> String {
 pub fn compile_artefacts(src: &str, sched: bool, run: bool) -> Artefacts {
     let mut parts = vec![];
     let mut texts = vec![];
+    let mut diagnostics: Vec<String> = vec![];
     let mut add = |name: &str, bytes: &[u8], keep: bool| {
         parts.push((name.to_string(), hash64(bytes), bytes.len()));
         if keep {
@@ -57,7 +70,10 @@ pub fn compile_artefacts(src: &str, sched: bool, run: bool) -> Artefacts {
             add("layout", format!("{:?}", p.get_dsp_state_skeleton()).as_bytes(), true);
             add("io", format!("{:?}", p.iochannels).as_bytes(), true);
         }
-        Ok(Err(d)) => add("bytecode", format!("ERR {}", d.len()).as_bytes(), true),
+        Ok(Err(d)) => {
+            add("bytecode", format!("ERR {}", d.len()).as_bytes(), true);
+            diagnostics = d.iter().map(|x| format!("{} | {}", x.message, x.labels.iter().map(|l| l.3.clone()).collect::<Vec<_>>().join(" / "))).collect();
+        }
         Err(p) => add("bytecode", format!("PANIC {}", p.signature()).as_bytes(), true),
     }
     // wasm bytes
@@ -83,5 +99,5 @@ pub fn compile_artefacts(src: &str, sched: bool, run: bool) -> Artefacts {
             add(name, s.as_bytes(), true);
         }
     }
-    Artefacts { parts, texts }
+    Artefacts { parts, texts, diagnostics }
 }
